@@ -18,60 +18,86 @@ pub const BADARG: &str = "badarg";
 /// incrementally maintained sets and hash as the undo left them); `reached MV <case>` — the board object that
 /// `Board::make_move(MV)` returned (answer `n/a` if the move is refused or not well-formed).
 #[derive(Clone, Copy)]
-enum Pre {
-    None,
-    Restored(Mv4),
-    Reached(Mv4),
+enum Step {
+    /// make in place, then take back
+    Undo(Mv4),
+    /// `Board::make_move` (a new board object)
+    Make(Mv4),
 }
 
 thread_local! {
-    static PRE: std::cell::Cell<Pre> = std::cell::Cell::new(Pre::None);
+    static PRE: std::cell::RefCell<Vec<Step>> = std::cell::RefCell::new(Vec::new());
+}
+
+fn pre_active() -> bool {
+    PRE.with(|p| !p.borrow().is_empty())
+}
+
+/// `via STEPS`: comma-separated `u<MV>` / `m<MV>`
+fn parse_steps(t: &str) -> Option<Vec<Step>> {
+    let mut v = Vec::new();
+    for part in t.split(',') {
+        let (k, mv) = part.split_at(1);
+        let m = mv4_parse(mv)?;
+        v.push(match k {
+            "u" => Step::Undo(m),
+            "m" => Step::Make(m),
+            _ => return None,
+        });
+    }
+    Some(v)
 }
 
 pub fn run_line(line: &str) -> String {
-    let (pre, inner): (Pre, &str) = {
+    let (pre, inner): (Vec<Step>, &str) = {
         let mut it = line.splitn(3, ' ');
         match (it.next(), it.next(), it.next()) {
             (Some("restored"), Some(mv), Some(rest)) => match mv4_parse(mv) {
-                Some(m) => (Pre::Restored(m), rest),
+                Some(m) => (vec![Step::Undo(m)], rest),
                 None => return BADARG.to_string(),
             },
             (Some("reached"), Some(mv), Some(rest)) => match mv4_parse(mv) {
-                Some(m) => (Pre::Reached(m), rest),
+                Some(m) => (vec![Step::Make(m)], rest),
                 None => return BADARG.to_string(),
             },
-            _ => (Pre::None, line),
+            (Some("via"), Some(steps), Some(rest)) => match parse_steps(steps) {
+                Some(v) => (v, rest),
+                None => return BADARG.to_string(),
+            },
+            _ => (Vec::new(), line),
         }
     };
-    PRE.with(|p| p.set(pre));
+    PRE.with(|p| *p.borrow_mut() = pre);
     let r = match catch_unwind(AssertUnwindSafe(|| run_inner(inner))) {
         Ok(s) => s,
         Err(_) => "panic".to_string(),
     };
-    PRE.with(|p| p.set(Pre::None));
+    PRE.with(|p| p.borrow_mut().clear());
     r
 }
 
 fn board_of(t: &[&str]) -> Result<Board, String> {
     let raw = raw_parse(t).ok_or_else(|| BADARG.to_string())?;
     let mut b = Board::try_from(raw).map_err(|_| "invalid".to_string())?;
-    match PRE.with(|p| p.get()) {
-        Pre::None => Ok(b),
-        Pre::Restored(m4) => {
-            // any semilegal move (legal or not — the rollback of a refused move runs the same code) and the null move
-            if let Ok(m) = mv4_new(m4) {
-                if m == Move::NULL || m.is_semilegal(&b) {
-                    let u = unsafe { moves::make_move_unchecked(&mut b, m) };
-                    unsafe { moves::unmake_move_unchecked(&mut b, m, u) };
+    let steps: Vec<Step> = PRE.with(|p| p.borrow().clone());
+    for st in steps {
+        match st {
+            Step::Undo(m4) => {
+                // any semilegal move (legal or not — the rollback of a refused move runs the same code) and the null move
+                if let Ok(m) = mv4_new(m4) {
+                    if m == Move::NULL || m.is_semilegal(&b) {
+                        let u = unsafe { moves::make_move_unchecked(&mut b, m) };
+                        unsafe { moves::unmake_move_unchecked(&mut b, m, u) };
+                    }
                 }
             }
-            Ok(b)
+            Step::Make(m4) => match mv4_new(m4) {
+                Ok(m) => b = b.make_move(m).map_err(|_| "n/a".to_string())?,
+                Err(_) => return Err("n/a".to_string()),
+            },
         }
-        Pre::Reached(m4) => match mv4_new(m4) {
-            Ok(m) => b.make_move(m).map_err(|_| "n/a".to_string()),
-            Err(_) => Err("n/a".to_string()),
-        },
     }
+    Ok(b)
 }
 
 macro_rules! tryb {
@@ -342,7 +368,7 @@ fn run_inner(line: &str) -> String {
             }
         }
         "fenformat" => {
-            if !matches!(PRE.with(|p| p.get()), Pre::None) {
+            if pre_active() {
                 // under an object prefix: the FEN of that board object (`Board::as_fen`), plus its own round trip
                 let b = tryb!(board_of(&t[1..]));
                 let text = b.as_fen();
